@@ -827,6 +827,23 @@ func Replay(g *Gen, r *UnitResult, ob *Obligation, cfg SolverCfg, dir string) (r
 	for lit, name := range r.reg.strLits {
 		b.lits[s.eval(name)] = lit
 	}
+	// scalar parameters first: they are the candidate keys when maps are probed
+	for _, p := range fn.Params {
+		bt, ok := p.Type().Underlying().(*types.Basic)
+		if !ok {
+			continue
+		}
+		for _, in := range ob.Inputs {
+			if in.Name != p.Name() {
+				continue
+			}
+			if bt.Info()&types.IsString != 0 {
+				b.candStr = append(b.candStr, in.Term.S)
+			} else if bt.Info()&types.IsInteger != 0 {
+				b.candInt = append(b.candInt, s.evalBig(in.Term.S))
+			}
+		}
+	}
 	// arguments
 	var args []string
 	env := map[string]string{}
